@@ -881,7 +881,22 @@ func (ex *Exec) applyContract(st *State, c *Contract, fn *types.Func, recv *Val,
 			continue // opaque: what callers may use is exported by lemmas (`assert uses`)
 		}
 		ex.curClause = c.Func + ": ensures " + cl.Text
+		nErr := len(ex.specErrs)
 		g := ex.eval(st, cl.Expr, sc)
+		if len(ex.specErrs) > nErr && cl.Kind == "ensures" {
+			// a postcondition that speaks of the callee's own local variables (ghost state of an object the
+			// callee builds) says nothing a caller can observe: it is proved for the callee and not used here
+			onlyLocals := true
+			for _, e := range ex.specErrs[nErr:] {
+				if !strings.Contains(e, "does not denote a variable here") && !strings.Contains(e, "undefined name") {
+					onlyLocals = false
+				}
+			}
+			if onlyLocals {
+				ex.specErrs = ex.specErrs[:nErr]
+				continue
+			}
+		}
 		st.assume(implies(dom, g.S))
 	}
 	return results
@@ -1119,7 +1134,7 @@ func (ex *Exec) specLocs(st *State, e ast.Expr, sc *SpecCtx) []*Loc {
 func (ex *Exec) ghostLoc(g *GhostDecl, args []*Val) *Loc {
 	rt := ex.eng.ghostResultType(g)
 	rsh := ex.eng.sh.shapeOf(rt)
-	if len(args) == 0 {
+	if len(args) == 0 || len(g.Params) == 0 {
 		return &Loc{Heap: true, TKey: "G$", Ref: "0", Path: []string{g.Name}, Sh: rsh, T: rt}
 	}
 	if len(g.Params) == 1 {
@@ -1354,6 +1369,23 @@ func (ex *Exec) specForm(st *State, name string, call *ast.CallExpr, sc *SpecCtx
 			return one(&Val{Sh: leafShape(types.Typ[types.UnsafePointer], "Int"), T: types.Typ[types.UnsafePointer], S: v.kid("ref").S})
 		}
 		return one(v)
+	case "wallclock":
+		// wallclock(k): the k-th reading of the wall clock (time.Now / time.Since) the function under
+		// verification has taken, in execution order (1-based); unconstrained when there is no such reading
+		if len(call.Args) == 1 {
+			if lit, ok := call.Args[0].(*ast.BasicLit); ok {
+				if k, err := strconv.Atoi(lit.Value); err == nil && k >= 1 {
+					if k <= len(ex.nowVals) {
+						return one(ex.nowVals[k-1])
+					}
+					if tt := ex.eng.resolveTypeName("time.Time", ""); tt != nil {
+						return one(ex.freshVal(tt, "wallclock"))
+					}
+				}
+			}
+		}
+		ex.specErr("wallclock(k): k must be a positive literal")
+		return one(ex.freshVal(nil, "wallclock"))
 	case "nth":
 		// nth(k, f(args)): the k-th result of a call with several results
 		if len(call.Args) == 2 {
